@@ -369,6 +369,10 @@ func compileStruct(typ *runtime.Type, structName, fieldName string, structTypeTo
 					continue
 				}
 				for k, v := range stDec.fieldMap {
+					if k != v.key {
+						// lower-cased alias of a field, not a field of its own
+						continue
+					}
 					if tags.ExistsKey(k) {
 						continue
 					}
@@ -396,6 +400,10 @@ func compileStruct(typ *runtime.Type, structName, fieldName string, structTypeTo
 				}
 				if dec, ok := contentDec.(*structDecoder); ok {
 					for k, v := range dec.fieldMap {
+						if k != v.key {
+							// lower-cased alias of a field, not a field of its own
+							continue
+						}
 						if tags.ExistsKey(k) {
 							continue
 						}
